@@ -495,6 +495,11 @@ class StmtMixin:
             if it is not None:
                 env["_it"] = SV(it, "int")
                 env["_seq"] = seq
+            # ghost index / sequence of the enclosing for-loop (the iteration of it that is being executed)
+            stack = getattr(fr, "loop_stack", [])
+            if stack:
+                env["_outer_it"] = SV(stack[-1][0], "int")
+                env["_outer_seq"] = stack[-1][1]
             for k, x in pre_env.items():
                 env["pre_" + k] = x
             tmp = St(state.guards, state.facts, env, state.heap, state.eff, state.epoch)
@@ -547,7 +552,16 @@ class StmtMixin:
             exit_st.facts[:] = h.facts
             exit_st.guards.append(z3.Not(c))
             h.guards.append(c)
-        for o in self.exec_block(body, h, fr):
+        if not hasattr(fr, "loop_stack"):
+            fr.loop_stack = []
+        if kind == "for":
+            fr.loop_stack.append((it, seq))
+        try:
+            body_outs = self.exec_block(body, h, fr)
+        finally:
+            if kind == "for":
+                fr.loop_stack.pop()
+        for o in body_outs:
             if o.kind in ("normal", "continue"):
                 nit = it + 1 if kind == "for" else None
                 for name, g in inv_clauses(o.st, nit):
